@@ -7,19 +7,21 @@ from ..rules.skeleton import Interp, U
 from ..util import switch_table, find_switches, is_assign
 
 EXPLANATION = (
-    "Static decision of structural clauses of C16: (1) the operator table of "
-    "carquet_reader_row_group_matches is evaluated exhaustively over the sign domain: for the 6 "
-    "operators x the 6 feasible orderings of the probe against min <= max, `might_match = false` is "
-    "stored only where no x in [min,max] satisfies `x op value` (36 cells); the interval tables of "
+    "Static decision of structural clauses of C16: (1) "
+    "carquet_reader_row_group_matches is executed abstractly with the two comparison results forced to "
+    "each of the 6 feasible sign pairs of the probe against min <= max, for each of the 6 operators (36 "
+    "cells, every path): no path may report `no match` where some x in [min,max] satisfies `x op value`, "
+    "*might_match is assigned on every path and a failing statistics lookup never yields `no match`; the interval tables of "
     "carquet_statistics_compare, carquet_statistics_range_overlaps and "
     "carquet_column_index_page_might_match are evaluated the same way over {<,=,>}; the comparator is "
-    "called as cmp(probe, bound) with the right bound; (2) `might_match = true` is stored before every "
-    "return, the no-statistics and error exits leave it true, filter_row_groups treats errors as match, "
-    "appends ascending indices and is capped by max_indices; (3) all type->comparator switch tables "
+    "called as cmp(probe, bound) with the right bound; (2) the bounds are compared only after the has_min_max "
+    "test; filter_row_groups, executed over scenarios of up to 3 row groups x {match, no match, error} x 3 "
+    "capacities, returns exactly the ascending, capped list of groups that matched or failed; (3) all type->comparator switch tables "
     "agree per physical type and the typed types never fall to the byte comparator; comparator bodies "
     "order by the value of their own width/type (floating comparators compare floating operands); "
-    "(4) floating min/max updates are NaN-guarded and every memcpy into the fixed min/max arrays is "
-    "bounded; (5) null_count is accumulated as num_values - num_non_null; (6) on the whole path builder -> "
+    "(4) floating min/max updates are NaN-guarded, every memcpy into the fixed min/max arrays is "
+    "bounded, and on the edge where a value is too long for the max storage the copy is unreachable within "
+    "the iteration (rejected, never truncated); (5) null_count is accumulated as num_values - num_non_null; (6) on the whole path builder -> "
     "Thrift struct -> reader view -> page index -> predicate, every store into a min_* (max_*) member or "
     "local reads only min (max) sources and every (pointer, size) argument pair names one bound. Decides these clauses, not "
     "that written min/max bound the data for every input.")
